@@ -4,7 +4,11 @@ property it targets (and of the neighbours listed in TARGETS), undo it, and reco
 import json, os, re, subprocess, sys, time
 VERIF = os.path.dirname(os.path.dirname(os.path.abspath(__file__)))
 EXTRA = {'C05_1': ['C07'], 'C06_1': ['C08'], 'C10_2': ['C13'], 'C17_2': ['C02'], 'C02_2': ['C01'], 'C07_2': ['C05'], 'C03_2': ['C17'],
-         'C01_1': ['C03'], 'C06_2': ['C10'], 'C09_1': ['C18'], 'C11_2': ['C09']}
+         'C01_1': ['C03'], 'C06_2': ['C10'], 'C09_1': ['C18'], 'C11_2': ['C09'],
+         # round 2
+         'C02_3': ['C08'], 'C05_4': ['C07'], 'C07_3': ['C05'], 'C07_4': ['C13'], 'C08_3': ['C02'], 'C10_3': ['C13'], 'C10_4': ['C07'],
+         'C13_3': ['C10'], 'C06_3': ['C08'], 'C17_4': ['C08', 'C02'], 'C11_4': ['C16'], 'C06_4': ['C05', 'C04'], 'C03_3': ['C17'],
+         'C17_3': ['C02'], 'C09_4': ['C02'], 'C12_4': ['C04'], 'C15_3': ['C16'], 'C01_3': ['C17']}
 def sh(cmd):
     return subprocess.run(cmd, shell=True, text=True, capture_output=True)
 def main():
